@@ -35,6 +35,7 @@ type gen struct {
 	noncan  bool // emit one non-canonical string header
 	badpad  bool // emit one non-zero padding byte
 	longStr bool // allow strings around the 253/254 boundary
+	mode    int  // 0 random; 1 rich: all mask bits, non-empty vectors/dictionaries/strings; 2 present but empty; 3 all masks 0, everything empty
 	hist    map[string]int
 }
 
@@ -47,6 +48,10 @@ func (g *gen) rawStr() []byte {
 	r := g.r
 	var l int
 	switch {
+	case g.mode == 1:
+		l = 3 + r.Intn(10)
+	case g.mode >= 2:
+		l = 0
 	case g.longStr && r.Chance(12):
 		l = int(r.Pick(250, 251, 252, 253, 254, 255, 256, 257, 300))
 		g.hist["str_boundary"]++
@@ -106,6 +111,12 @@ func (g *gen) encStr(s []byte) []byte {
 
 func (g *gen) mask() uint32 {
 	r := g.r
+	if g.mode == 1 || g.mode == 2 {
+		return 0xFFFFFFFF
+	}
+	if g.mode == 3 {
+		return 0
+	}
 	switch r.Intn(6) {
 	case 0:
 		return 0
@@ -162,6 +173,11 @@ func (g *gen) bytes(d *veriftl.Desc, env []uint32, depth int) []byte {
 		}
 		if r.Chance(3) {
 			n = 5 + r.Intn(5)
+		}
+		if g.mode == 1 {
+			n = 2 + r.Intn(2)
+		} else if g.mode >= 2 {
+			n = 0
 		}
 		w := le32(uint32(n))
 		if d.Sorted && d.Elem.Kind == "struct" && len(d.Elem.Fields) == 2 && r.Chance(80) {
@@ -263,6 +279,56 @@ func goRead(create func() items.Obj, boxed bool, in []byte) (res readResult) {
 	return readResult{ok: true, rest: len(rest), rewritten: w, obj: obj}
 }
 
+// readInto decodes into an EXISTING object (possibly holding another value)
+func readInto(obj items.Obj, boxed bool, in []byte) (ok bool, rest int, panicked bool) {
+	defer func() {
+		if e := recover(); e != nil {
+			ok, rest, panicked = false, 0, true
+		}
+	}()
+	var r []byte
+	var err error
+	buf := append([]byte(nil), in...)
+	if boxed {
+		r, err = obj.ReadTL1Boxed(buf)
+	} else {
+		r, err = obj.ReadTL1(buf)
+	}
+	return err == nil, len(r), false
+}
+
+func readJSONInto(obj items.Obj, j string) (ok bool) {
+	defer func() {
+		if recover() != nil {
+			ok = false
+		}
+	}()
+	return obj.ReadJSONGeneral(&basictl.JSONReadContext{}, &basictl.JsonLexer{Data: []byte(j)}) == nil
+}
+
+func readTL2Into(obj items.Obj, w []byte) (ok bool) {
+	defer func() {
+		if recover() != nil {
+			ok = false
+		}
+	}()
+	rest, err := obj.(items.TL2).ReadTL2(append([]byte(nil), w...), &basictl.TL2ReadContext{})
+	return err == nil && len(rest) == 0
+}
+
+func writeTL2(obj items.Obj) (w []byte, ok bool) {
+	defer func() {
+		if recover() != nil {
+			w, ok = nil, false
+		}
+	}()
+	return obj.(items.TL2).WriteTL2(nil, &basictl.TL2WriteContext{}), true
+}
+
+func jsonUsable(j string) bool {
+	return !strings.Contains(j, `"NaN"`) && !reKeyBase64.MatchString(j) && !reKeyEscaped.MatchString(j)
+}
+
 func write(obj items.Obj, boxed bool) []byte {
 	var w []byte
 	if boxed {
@@ -351,6 +417,105 @@ func main() {
 		}
 		replay("F-C14a", []byte{0xff})
 		replay("F-C14b", []byte{'\t'})
+	}
+
+	// destination reuse (oracle level; the model's read is a function of the bytes only): receivers decode
+	// message after message into ONE object, so a read into an object that already holds another value must
+	// give what a read into a fresh object gives
+	pool := map[string]items.Obj{}
+	reuseSeq := func(e entry, line int) {
+		boxed := rng.Bool() || e.d.IsUnion
+		d := e.d.D
+		if boxed && !e.d.IsUnion {
+			d = &veriftl.Desc{Kind: "boxed", Tag: e.d.Tag, Elem: d}
+		}
+		type val struct {
+			in   []byte
+			b    []byte
+			j    string
+			jok  bool
+			t2   []byte
+			t2ok bool
+			mode int
+		}
+		var ins []struct {
+			in   []byte
+			mode int
+		}
+		for _, mode := range []int{1, 2, 1, 3, 1, 0, 2, 0} {
+			g := &gen{r: rng, hist: map[string]int{}, mode: mode}
+			in := g.bytes(d, nil, 0)
+			if len(in) > 6000 {
+				continue
+			}
+			ins = append(ins, struct {
+				in   []byte
+				mode int
+			}{in, mode})
+		}
+		variants := []struct {
+			name   string
+			create func() items.Obj
+		}{{"", e.it.Create}}
+		if e.it.CreateBytes != nil {
+			variants = append(variants, struct {
+				name   string
+				create func() items.Obj
+			}{"_bytes_variant", e.it.CreateBytes})
+		}
+		for _, vr := range variants {
+			// what a read into a FRESH object of this variant gives for each input
+			var vals []val
+			for _, x := range ins {
+				fr := goRead(vr.create, boxed, x.in)
+				if !fr.ok || fr.rest != 0 {
+					continue
+				}
+				v := val{in: x.in, b: fr.rewritten, mode: x.mode}
+				v.j, v.jok = jsonOf(fr.obj)
+				v.jok = v.jok && jsonUsable(v.j)
+				if _, is := fr.obj.(items.TL2); is && e.it.HasTL2 {
+					v.t2, v.t2ok = writeTL2(fr.obj)
+				}
+				vals = append(vals, v)
+			}
+			for _, codec := range []string{"tl1", "json", "tl2"} {
+				obj := vr.create()
+				prev := "fresh"
+				for _, v := range vals {
+					ok := false
+					switch codec {
+					case "tl1":
+						var rest int
+						ok, rest, _ = readInto(obj, boxed, v.in)
+						ok = ok && rest == 0
+					case "json":
+						if !v.jok {
+							continue
+						}
+						ok = readJSONInto(obj, v.j)
+					case "tl2":
+						if !v.t2ok {
+							continue
+						}
+						ok = readTL2Into(obj, v.t2)
+					}
+					o.Hist["oracle:reuse_"+codec]++
+					if !ok || !bytes.Equal(write(obj, boxed), v.b) {
+						name := "read_into_reused_object_equals_fresh"
+						if codec != "tl1" {
+							name += "_" + codec
+						}
+						o.Fail(name+vr.name, line, fmt.Sprintf("reuse %s boxed=%v codec=%s after=%s value(mode %d) hex=%s", e.it.Key(), boxed, codec, prev, v.mode, hex.EncodeToString(v.in)))
+						break
+					}
+					prev = fmt.Sprintf("mode%d:%s", v.mode, hex.EncodeToString(v.in))
+					if len(prev) > 400 {
+						prev = prev[:400] + "..."
+					}
+				}
+			}
+		}
 	}
 
 	nTL := *n * 9 / 10
@@ -459,6 +624,39 @@ func main() {
 		obj1 := res.obj
 		b1 := res.rewritten
 		j1, jok := jsonOf(obj1)
+		// read the same input into the object that holds the previous accepted value of this item
+		for vi, create := range []func() items.Obj{e.it.Create, e.it.CreateBytes} {
+			if create == nil {
+				continue
+			}
+			key := fmt.Sprintf("%s/%d", e.it.Key(), vi)
+			dirty := pool[key]
+			if dirty == nil {
+				dirty = create()
+				pool[key] = dirty
+			}
+			want, wantJ, wantJok := b1, j1, jok
+			if vi == 1 {
+				fb := goRead(create, boxed, in)
+				if !fb.ok {
+					continue // reported by bytes_string_variants_read_alike
+				}
+				want = fb.rewritten
+				wantJ, wantJok = jsonOf(fb.obj)
+			}
+			ok, rest, _ := readInto(dirty, boxed, in)
+			if !ok || rest != res.rest || !bytes.Equal(write(dirty, boxed), want) {
+				o.Fail([]string{"read_into_reused_object_equals_fresh", "read_into_reused_object_equals_fresh_bytes_variant"}[vi], line, text)
+				delete(pool, key)
+			} else if jd, okd := jsonOf(dirty); wantJok && (!okd || jd != wantJ) {
+				o.Fail([]string{"read_into_reused_object_equals_fresh", "read_into_reused_object_equals_fresh_bytes_variant"}[vi], line, text+" (json differs)")
+				delete(pool, key)
+			}
+			o.Hist["oracle:reuse_stream"]++
+		}
+		if rng.Chance(8) {
+			reuseSeq(e, line)
+		}
 		// TL1: write -> read -> equal (with and without trailing bytes)
 		junk := []byte{0xAB, 0xCD, 0xEF}[:rng.Intn(4)]
 		r2 := goRead(e.it.Create, boxed, append(append([]byte(nil), b1...), junk...))
